@@ -1546,6 +1546,13 @@ class CallMixin(object):
     def iterable_to_seq(self, st, acc, v, node):
         if v.kind == "pytuple":
             return self.as_seq(st, v)
+        if v.kind is None and v.z is not None and v.cls is not None:
+            # optional object: iterating it requires it to be there
+            if not self.in_spec:
+                self.oblige(st, "deref", self.auto_label(node, "deref"), self.u.is_R(v.z),
+                            note="iterated value is an object (not None)")
+            st.assume(self.u.is_R(v.z))
+            v = SV(v.z, "ref", cls=v.cls, elem=v.elem)
         if v.kind == "ref" and v.cls in ("list", "tuple", "iterator"):
             return SV(v.z, "ref", cls="list" if v.cls == "iterator" else v.cls, elem=v.elem)
         if v.kind == "ref" and v.cls is not None and v.cls not in CONTAINER_CLASSES:
